@@ -129,11 +129,12 @@ def run(case):
     try:
         c = _ENV.load(zdir, cleaned=cfg['cleaned'], subsamples=subs_arg(cfg['subs']), fields=fields)
         if isinstance(fl, list):
-            if fields != fl:
-                probs.append(dict(sig='caller-list-modified', msg=f'cfg={cfg}: the fields list passed by the caller was changed from {fl} to {fields}'))
             # the same list object used for a second load (the usual way to load several catalogs) must give the same table
             c2 = _ENV.load(zdir, cleaned=cfg['cleaned'], subsamples=subs_arg(cfg['subs']), fields=fields)
-            if c2.halos.colnames != c.halos.colnames or any(not np.array_equal(np.asarray(c2.halos[k]), np.asarray(c.halos[k]), equal_nan=True) for k in c.halos.colnames):
+            missing = [x for x in fl if x not in c2.halos.colnames and not (cfg['cleaned'] and x in ('N', 'N_total')) and x in R]
+            if missing:
+                probs.append(dict(sig='second-load-with-same-list-differs', msg=f'cfg={cfg} fields={fl}: second load with the same list object lacks {missing}'))
+            elif c2.halos.colnames != c.halos.colnames or any(not np.array_equal(np.asarray(c2.halos[k]), np.asarray(c.halos[k]), equal_nan=True) for k in c.halos.colnames):
                 probs.append(dict(sig='second-load-with-same-list-differs', msg=f'cfg={cfg} fields={fl}: columns {c.halos.colnames} then {c2.halos.colnames}'))
     except Exception as e:
         tb = traceback.extract_tb(e.__traceback__)
